@@ -698,8 +698,12 @@ def _run_sox(case):
 
 
 def _edb(sn, et, bpr, mass=(0.74, 1.72, 44.0, 70.8), num=(2.66e13, 7.1e13, 4.33e14, 4.02e14), mmax=70.8, mthr=-1.0, nmax=4.33e14, nthr=-1.0, pr=29.0):
+    # scope11_profile is cached on the entry, whose hash is engine:uid only. Entries that share
+    # idle/approach smoke numbers share a uid here, so the cache is exercised with equal-hash
+    # entries carrying different data (169 per uid) without degenerating into one bucket.
+    uid = f'C12-{et}-{bpr}-{sn[0]!r}-{sn[1]!r}'
     return _STATE['EDBEntry'](
-        engine='HARNESS', uid='C12', engine_type=et, BP_Ratio=float(bpr), rated_thrust=121.4,
+        engine='HARNESS', uid=uid, engine_type=et, BP_Ratio=float(bpr), rated_thrust=121.4,
         fuel_flow=_tmv(_SHIP_FF), CO_EI_matrix=_tmv(_SHIP_CO), HC_EI_matrix=_tmv(_SHIP_HC), EI_NOx_matrix=_tmv(_SHIP_NOX),
         SN_matrix=_tmv(sn), nvPM_mass_matrix=_tmv(mass), nvPM_num_matrix=_tmv(num), PR=_tmv([pr] * 4),
         EImass_max=float(mmax), EImass_max_thrust=float(mthr), EInum_max=float(nmax), EInum_max_thrust=float(nthr),
